@@ -308,7 +308,7 @@ pub fn crafted_points(poolq: &Pool, seed: u64, budget: usize) -> Vec<G1> {
         if let Some(p) = crafted_g1(pr).or_else(|| crafted_g1(&(pr.1.clone(), pr.0.clone()))) { out.push(p); }
     }
     let stride = 7usize;
-    let mut i = (seed as usize * 13) % all.len();
+    let mut i = ((seed % 1000003) as usize * 13) % all.len();
     for _ in 0..all.len() {
         if out.len() >= budget { break; }
         if let Some(p) = crafted_g1(all[i]) { out.push(p); }
@@ -345,7 +345,7 @@ pub fn coord_points(poolq: &Pool, seed: u64, budget: usize) -> Vec<G1> {
     let vals = pattern_values(poolq);
     let mut out = Vec::new();
     if vals.is_empty() { return out; }
-    let mut i = (seed as usize * 19) % vals.len();
+    let mut i = ((seed % 1000003) as usize * 19) % vals.len();
     for k in 0..2 * vals.len() {
         if out.len() >= budget { break; }
         let v = vals[i];
@@ -365,7 +365,7 @@ pub fn eq_crafted(poolq: &Pool, seed: u64, budget: usize) -> Vec<(G1, G1)> {
     let mut out = Vec::new();
     if all.is_empty() { return out; }
     let hp: Vec<&(Vec<u8>, Vec<u8>)> = poolq.hpairs.iter().collect();
-    let mut i = (seed as usize * 23) % all.len();
+    let mut i = ((seed % 1000003) as usize * 23) % all.len();
     for k in 0..(all.len() + hp.len()) {
         if out.len() >= budget { break; }
         // the high-limb pairs first (up to half of the budget), then the rotating sample
@@ -393,7 +393,7 @@ pub fn sq_coord_points(poolq: &Pool, seed: u64, budget: usize) -> Vec<G1> {
     let n = vals.len();
     for k in 0..2 * n {
         if out.len() >= budget { break; }
-        let v = vals[(k / 2 + seed as usize * 3) % n];
+        let v = vals[(k / 2 + (seed % 1000003) as usize * 3) % n];
         if let Some(s) = v.sqrt() {
             if k % 2 == 0 {
                 if let Some(y) = (s * s * s + G1::b()).sqrt() { out.push(G1::new(s, y, Fq::one())); }
@@ -428,14 +428,14 @@ pub fn inv_pattern_zs(poolq: &Pool, seed: u64, budget: usize) -> Vec<Fq> {
         let mut k = 0;
         for j in 0..n {
             if k >= budget / 6 { break; }
-            if let Some(sq) = vs[(j + seed as usize * 5) % n].sqrt() {
+            if let Some(sq) = vs[(j + (seed % 1000003) as usize * 5) % n].sqrt() {
                 if let Some(inv) = sq.inverse() { out.push(if k % 3 == 2 { sq } else { inv }); k += 1; }
             }
         }
     }
     for (cands, share) in [(&fam1, budget - budget / 3), (&fam2, budget / 3)] {
         if cands.is_empty() { continue; }
-        let mut i = (seed as usize * 17) % cands.len();
+        let mut i = ((seed % 1000003) as usize * 17) % cands.len();
         let mut n = 0;
         for _ in 0..cands.len() {
             if n >= share { break; }
